@@ -84,3 +84,15 @@ pub fn region_read(r: &ByteRegion, offset: u64, buf: &mut [u8]) -> std::io::Resu
 pub fn region_read_exact(r: &ByteRegion, offset: u64, buf: &mut [u8]) -> std::io::Result<()> {
     r.source.read_exact(r.region.begin() + Offset::new(offset), buf)
 }
+
+static MAX_BLOBS_PER_CLUSTER: std::sync::atomic::AtomicUsize =
+    std::sync::atomic::AtomicUsize::new(usize::MAX);
+
+/// Lower the number of blobs after which a cluster is closed (default: no override).
+pub fn set_max_blobs_per_cluster(max: usize) {
+    MAX_BLOBS_PER_CLUSTER.store(max, std::sync::atomic::Ordering::SeqCst);
+}
+
+pub(crate) fn max_blobs_per_cluster() -> usize {
+    MAX_BLOBS_PER_CLUSTER.load(std::sync::atomic::Ordering::SeqCst)
+}
